@@ -449,10 +449,8 @@ def o11_list_members(prog, ctx, rule="O11"):
                 cfg = f.cfg
                 hb = cfg.loop_header(lp)
                 if hb is not None:
-                    body_entry = [s2 for (b, i, s2) in cfg.edges() if b == hb and s2 in cfg.natural_loop(hb) and s2 != hb]
-                    sb = cfg.block_of(st)
-                    # a way round the loop that does not pass the store (NOMEM exits leave the function, they do not go round)
-                    every_round = all(be == sb or hb not in cfg.reachable(be, avoid_blocks=[sb]) for be in body_entry)
+                    # a way round the loop that does not pass the store (NOMEM exits leave the loop, they do not go round)
+                    every_round = cfg.every_round_passes(hb, cfg.block_of(st))
             if toks and toks <= {"strsep"} and not every_round:
                 ctx.fail(rule, "members of the %s list" % field, st.where,
                          "some rounds of the splitting loop store no member (empty members are skipped): a list of empty members only leaves the array allocated "
